@@ -120,6 +120,19 @@ func cmdCheck(args []string) int {
 		fmt.Fprintln(os.Stderr, "lsvc: error:", err)
 		return 2
 	}
+	if rc == 0 && o.tier == "thorough" && o.repo == "/repo" && o.only == "" && os.Getenv("LSVC_NO_CORPUS") == "" {
+		cr, err := runCorpus(o.prop)
+		if err != nil {
+			fmt.Fprintln(os.Stderr, "lsvc: must-fail corpus:", err)
+			return 2
+		}
+		fmt.Printf("%s thorough: must-fail corpus: %d seeded changes checked, %d reported, %d skipped\n", o.prop, cr.Checked, cr.Detected, len(cr.Skipped))
+		addCorpusToEvidence(o.prop, cr)
+		if len(cr.Missed) > 0 {
+			fmt.Fprintf(os.Stderr, "lsvc: CHECK-ERROR: seeded changes no longer reported: %s\n", strings.Join(cr.Missed, ", "))
+			return 2
+		}
+	}
 	return rc
 }
 
@@ -606,4 +619,23 @@ func cmdDump(args []string) int {
 	}
 	f.WriteTo(os.Stdout)
 	return 0
+}
+
+func addCorpusToEvidence(prop string, cr *corpusResult) {
+	p := filepath.Join(verifDir, "evidence", prop+".json")
+	b, err := os.ReadFile(p)
+	if err != nil {
+		return
+	}
+	var ev map[string]interface{}
+	if json.Unmarshal(b, &ev) != nil {
+		return
+	}
+	cov, _ := ev["coverage"].(map[string]interface{})
+	if cov == nil {
+		return
+	}
+	cov["must_fail_corpus"] = cr
+	out, _ := json.MarshalIndent(ev, "", " ")
+	os.WriteFile(p, out, 0o644)
 }
